@@ -3,6 +3,7 @@
   Property theorems only.
 -/
 import SplVerif.Model.Net
+import SplVerif.Lemmas.NetRefine
 
 namespace Spl.C20
 open Spl.Net
@@ -69,5 +70,81 @@ theorem remove_get_other (d : Docs Uri Text) (a b : Uri) (h : a ≠ b) :
     (d.remove a).get b = d.get b := by
   unfold Docs.remove Docs.get
   rw [find_filter_ne d a b h]
+
+/-! ### the process network against the single-threaded reference -/
+
+section
+variable {Chg Req Resp Diag : Type}
+variable (f : Fns Uri Text Chg Req Resp Diag) (diagOn : Bool) (docCap ioCap : Nat)
+
+/-- **C20, network refinement.** For every client input, every channel capacity and every
+    schedule of the three processes (of any length; choices of blocked processes are skipped):
+    if the network has come to rest, what it wrote to the client agrees with the single-threaded
+    reference `seqRun` — which applies each notification to the per-URI map and answers each
+    request from the map as it is at that point — on
+    (i) the whole document-related traffic (diagnostics and feature responses), in order, and
+    (ii) all responses, in order.
+    Hence responses come in request order, a request after a `didChange` of the same document
+    observes the change, diagnostics of one document are published in version order, and (with
+    `set_get_other`/`remove_get_other`) traffic on one URI never alters another.
+    The only reordering the network allows is of a broker-independent response against
+    diagnostics, which `Agree` leaves unconstrained — as the property does. -/
+theorem net_refines_seq (input : List (CMsg Uri Text Chg Req Resp)) (sched : List Proc)
+    (hfin : isFinal (runSchedule f diagOn docCap ioCap (init input) sched) = true) :
+    Agree (runSchedule f diagOn docCap ioCap (init input) sched).out (seqRun f diagOn [] input) := by
+  have h := runSchedule_agree f diagOn docCap ioCap (init input) sched (inv_init input)
+  have h1 := future_final f diagOn _ h.1 hfin
+  have h2 := future_init f diagOn input
+  rw [h1, h2] at h
+  exact h.2
+
+/-- Prefix form: at **every** point of every schedule the output written so far is a prefix of a
+    stream that agrees with the reference (`future`); nothing is ever retracted or invented. -/
+theorem net_prefix (input : List (CMsg Uri Text Chg Req Resp)) (sched : List Proc) :
+    ∃ rest, Agree ((runSchedule f diagOn docCap ioCap (init input) sched).out ++ rest)
+      (seqRun f diagOn [] input) := by
+  have h := runSchedule_agree f diagOn docCap ioCap (init input) sched (inv_init input)
+  rw [future_init] at h
+  exact ⟨_, h.2⟩
+
+/-- **No deadlock.** With both channel capacities ≥ 1 (`chan_caps_pos` for the real values), every
+    reachable state that is not at rest has an enabled process. -/
+theorem net_no_deadlock (input : List (CMsg Uri Text Chg Req Resp)) (sched : List Proc)
+    (hdc : 1 ≤ docCap) (hic : 1 ≤ ioCap)
+    (hnf : isFinal (runSchedule f diagOn docCap ioCap (init input) sched) = false) :
+    ∃ p, (step f diagOn docCap ioCap (runSchedule f diagOn docCap ioCap (init input) sched) p).isSome = true :=
+  progress f diagOn docCap ioCap _
+    (runSchedule_agree f diagOn docCap ioCap (init input) sched (inv_init input)).1 hdc hic hnf
+
+/-- **Termination.** Every step of every process strictly decreases `measure`, which starts at
+    `6 * input.length`: no schedule takes more than that many effective steps, so together with
+    `net_no_deadlock` every schedule that keeps choosing an enabled process comes to rest. -/
+theorem net_step_decreases (input : List (CMsg Uri Text Chg Req Resp)) (sched : List Proc) (p : Proc)
+    (s' : State Uri Text Chg Req Resp Diag)
+    (h : step f diagOn docCap ioCap (runSchedule f diagOn docCap ioCap (init input) sched) p = some s') :
+    Net.measure s' < Net.measure (runSchedule f diagOn docCap ioCap (init input) sched) :=
+  step_decreases f diagOn docCap ioCap _ s' p
+    (runSchedule_agree f diagOn docCap ioCap (init input) sched (inv_init input)).1 h
+
+theorem measure_init (input : List (CMsg Uri Text Chg Req Resp)) :
+    Net.measure (init input : State Uri Text Chg Req Resp Diag) = 6 * input.length := by
+  simp [Net.measure, init, readerW, brokerW]
+
+end
+
+/-! Non-vacuity: a concrete input and schedule reach rest, with a reordering actually happening
+    (the broker-independent response overtakes a diagnostic). -/
+section
+def exFns : Fns Nat Nat Nat Nat Nat Nat := ⟨fun t c => t + c, fun t => t, fun t r => t.getD 0 + r⟩
+def exInput : List (CMsg Nat Nat Nat Nat Nat) :=
+  [.open 1 10, .otherReq 1 99, .change 1 5, .docReq 2 1 0, .close 1]
+def exSched : List Proc :=
+  [.reader, .reader, .broker, .reader, .reader, .responder, .broker, .responder,
+   .reader, .reader, .broker, .broker, .responder, .reader, .reader, .broker, .reader, .reader,
+   .responder, .reader, .reader, .broker]
+
+example : isFinal (runSchedule exFns true 2 2 (init exInput) exSched) = true := by decide
+example : (runSchedule exFns true 2 2 (init exInput) exSched).out.length = 4 := by decide
+end
 
 end Spl.C20
